@@ -1969,6 +1969,12 @@ func (c16) Exec(c string) (string, []Fail) {
 		}
 		return c16{}.execArgv(head[1:])
 	}
+	if len(head) > 0 && head[0] == "argvx" {
+		if len(parts) != 2 || parts[1] != "-" {
+			return "bad-op", nil
+		}
+		return c16{}.execArgvx(head[1:])
+	}
 	recs, ok := c16ParseRecs(parts[1])
 	if len(head) == 0 || !ok {
 		return "bad-op", nil
@@ -2450,6 +2456,15 @@ func c16Opt(rng *rand.Rand, kind string, recs []c16Pair) []string {
 		if rng.Intn(4) == 0 {
 			out = append(out, "indel")
 		}
+		if rng.Intn(3) == 0 {
+			out = append(out, "fwd")
+		}
+		return out
+	case "lca":
+		out := []string{"lca=" + hs(pick([]string{"lca", "taxid", "merged", "sp_taxid", "x", "lca_taxid"}))}
+		if rng.Intn(2) == 0 {
+			out = append(out, "lcaerr="+pick([]string{"0", "0.1", "0.25", "0.3", "0.49"}))
+		}
 		return out
 	case "cut":
 		r := recs[rng.Intn(len(recs))].r
@@ -2522,11 +2537,22 @@ func (c16) Gen(rng *rand.Rand, tier string, emit func(string)) {
 		"annot setid=616e6e6f746174696f6e732e6d697373696e67 | 7231,61636774,6b=i3",
 		"grep p=616e6e6f746174696f6e732e6d697373696e673d3d33 | 7231,61636774,6b=i3",
 		"grep l=5 p=616e6e6f746174696f6e732e6d697373696e673d3d33 | 7231,61636774,6b=i3",
+		// --only-forward had no effect on obiannotate --pattern (MatchPatternWorker ignored bothStrand)
+		"annot pat=61636774 fwd | 7231,6161636761636774,- ; 7232,61616163677474,- ; 7233,616161616161,-",
+		"annot pat=61636774 | 7231,6161636761636774,- ; 7232,61616163677474,- ; 7233,616161616161,-",
+		"annot pat=67676163 patname=7072696d6572 pe=1 fwd | 7231,6774636361,- ; 7232,6767616361,-",
+		// --add-lca-in: slot names, merged_taxid statistics present / created, unknown taxid
+		"annot lca=6c6361 | 7231,61636774,7461786964=i12 ; 7232,61636774,6d65726765645f7461786964=m31323a322c31333a31 ; 7233,61636774,6d65726765645f7461786964=m31323a312c32313a33",
+		"annot lca=7461786964 lcaerr=0.3 | 7231,61636774,6d65726765645f7461786964=m31323a332c31333a312c32313a31 ; 7232,61636774,7461786964=s3133",
+		"annot lca=6d6572676564 | 7231,61636774,7461786964=i21",
+		"annot lca=78 | 7231,61636774,7461786964=i999 ; 7232,61636774,-",
 		"grep paired pm=786f72 l=3 | 61,61636774,- + 616d,6163,- ; 62,61,- + 626d,61,-",
 		"grep paired pm=6e6f6e65 l=3 | 61,61636774,- + 616d,6163,-",
 		"grep idl=- | 61,61636774,-", "grep | 61,61636774,-", "grep l=2 | ",
 		"class 73616d706c65 - 4e41 | 61,6163,73616d706c65=s41 ; 62,6163,- ; 63,6163,6b=i1 ; 64,6163,73616d706c65=i7",
 		"class 73616d706c65 646972 4e41 | 61,6163,73616d706c65=s41;646972=s64 ; 62,6163,- ; 63,6163,6b=i1 ; 64,6163,73616d706c65=b1",
+		// (S1, lib:A) and (S1:lib, A) are two classes
+		"class 73616d706c65 72756e 4e41 | 61,6163,73616d706c65=s5331;72756e=s6c69623a41 ; 62,6163,73616d706c65=s53313a6c6962;72756e=s41 ; 63,6163,73616d706c65=s5331;72756e=s6c69623a41",
 		"grepio l=3 bs=2 w=2 | 61,61636774,- ; 62,6163,- ; 63,616367,- ; 64,61,- ; 65,6163677461,-",
 		"grepio v bs=2 w=2 | 61,61636774,- ; 62,6163,-",
 		"grepio paired pm=616e64 l=3 bs=2 w=3 | 61,61636774,- + 616d,6163,- ; 62,616161,- + 626d,61616161,- ; 63,61,- + 636d,61,-",
@@ -2651,6 +2677,38 @@ func (c16) Gen(rng *rand.Rand, tier string, emit func(string)) {
 		emit(join("annot", toks, recs))
 		stat("annot.lib.subset")
 	}
+	// --add-lca-in: records with a taxid and / or merged_taxid statistics
+	lcaRecs := func() []c16Pair {
+		recs := fix(c16RandRecs(rng, false))
+		for j := range recs {
+			a := recs[j].r.attrs
+			switch rng.Intn(10) {
+			case 0: // as drawn (often without taxid: panic)
+			case 1, 2, 3:
+				n := 1 + rng.Intn(3)
+				m := map[string]int{}
+				for k := 0; k < n; k++ {
+					m[strconv.Itoa([]int{12, 13, 21, 31, 11, 10, 2}[rng.Intn(7)])] = 1 + rng.Intn(3)
+				}
+				a["merged_taxid"] = c16Val{kind: 'm', s: c16MapText(m)}
+			default:
+				a["taxid"] = c16Val{kind: 'i', n: []int{12, 13, 21, 31, 11, 10, 2, 1}[rng.Intn(8)]}
+			}
+		}
+		return recs
+	}
+	for i := 0; i < 6+nrand/12; i++ {
+		recs := lcaRecs()
+		toks := c16Opt(rng, "lca", recs)
+		switch rng.Intn(4) {
+		case 0:
+			toks = append(toks, subset(c16AnnotKinds, recs, 1)...)
+		case 1:
+			toks = append(toks, c16Opt(rng, c16LibKinds[rng.Intn(len(c16LibKinds))], recs)...)
+		}
+		emit(join("annot", toks, recs))
+		stat("annot.lca")
+	}
 	// classifier of obidistribute
 	for i := 0; i < nrand/6; i++ {
 		recs := c16RandRecs(rng, false)
@@ -2660,6 +2718,28 @@ func (c16) Gen(rng *rand.Rand, tier string, emit func(string)) {
 		}
 		emit(fmt.Sprintf("class %s %s %s | %s", hs(c16Keys[rng.Intn(len(c16Keys))]), k2, hs([]string{"NA", "none", "x"}[rng.Intn(3)]), c16ShowRecs(recs)))
 		stat("class")
+	}
+	// class values that collide under a naive concatenation of the two keys: (a, b<sep>c) and (a<sep>b, c)
+	for i := 0; i < 8+nrand/40; i++ {
+		sep := []string{":", ",", "|", ";", " ", "\"", "\\", "", "-", "_", "/", "[", "\",\""}[rng.Intn(13)]
+		a, b, c := []string{"S1", "x", "", "A"}[rng.Intn(4)], []string{"lib", "y", "B", ""}[rng.Intn(4)], []string{"A", "z", "", "q"}[rng.Intn(4)]
+		fam := [][2]string{{a, b + sep + c}, {a + sep + b, c}, {a + sep, b + c}, {a, b + c}}
+		n := 3 + rng.Intn(5)
+		recs := make([]c16Pair, n)
+		for j := range recs {
+			f := fam[rng.Intn(len(fam))]
+			recs[j].r = c16Rec{id: fmt.Sprintf("r%d", j), seq: []byte("acgt"), attrs: map[string]c16Val{
+				"k1": {kind: 's', s: f[0]}, "k2": {kind: 's', s: f[1]}}}
+			if rng.Intn(6) == 0 {
+				delete(recs[j].r.attrs, []string{"k1", "k2"}[rng.Intn(2)])
+			}
+		}
+		k2 := hs("k2")
+		if rng.Intn(5) == 0 {
+			k2 = "-"
+		}
+		emit(fmt.Sprintf("class %s %s %s | %s", hs("k1"), k2, hs([]string{"NA", "none", ""}[rng.Intn(3)]+"x"), c16ShowRecs(recs)))
+		stat("class.colliding")
 	}
 	// end to end
 	for i := 0; i < nrand/6; i++ {
@@ -2695,4 +2775,5 @@ func (c16) Gen(rng *rand.Rand, tier string, emit func(string)) {
 	}
 	c16GenPipe(rng, tier, emit, join)
 	c16GenArgv(rng, tier, emit)
+	c16GenArgvx(rng, tier, emit)
 }
